@@ -204,6 +204,9 @@ def check_scenario(sc, base_dir, st: Stats, pairs: bool, only=None):
     names = [n for n, _ in trace]
     if "replace" in names and ("fsync" not in names or names.index("fsync") > names.index("replace")):
         fails.append(("C16:unlisted:replace-without-prior-fsync", f"{label_of(sc)}: trace has no fsync before replace: {names}", {}))
+    if len(st.samples) < 2:
+        st.samples.append({"scenario": label_of(sc), "boundaries": [f"{i}:{n} {info}" for i, (n, info) in enumerate(trace)],
+                           "faults_per_boundary": ["kill", "torn (write boundaries)"] + [f for f, _ in FAULTS]})
     first_mut = next((i for i, (n, _) in enumerate(trace) if n in fsx.MUTATING), len(trace))
     repl = max((i for i, (n, _) in enumerate(trace) if n in ("replace", "rename")), default=len(trace))
     before_siblings = ["t.oct.md"] if sc["mode"] != "new" else []
@@ -294,8 +297,6 @@ def shard(ctx: Ctx, sh: int, nshards: int) -> Stats:
             st.labels["scenarios"] += 1
             for sig, det, plan in check_scenario(sc, base, st, pairs=(not ctx.quick and sc["size"] == "small")):
                 st.fail(sig, {"scenario": sc, "plan": plan}, det)
-            if len(st.samples) < 2:
-                st.samples.append({"scenario": label_of(sc)})
     return st
 
 
